@@ -26,6 +26,9 @@ inductive Prov (σ : Type) where
   | inReq (sess : σ) (req : Nat) (post : Nat)             -- notification / call issued with the request's context
   | detached (sess : σ)                                  -- … with a context that belongs to no request
   | server                                               -- list_changed / acknowledged: server-initiated
+  | fanout (origin : σ) (req : Nat) (post : Nat) (hctx : Bool)   -- a session-independent server notification (`Server.ResourceUpdated`)
+                                                         -- issued while request `req` (POST exchange `post`) of session `origin` was
+                                                         -- being handled; `hctx`: the caller passed the handler's context
   | other
 
 /-- the SSE `id:` field of an event as it appeared on the wire -/
@@ -120,6 +123,7 @@ deriving DecidableEq, Repr
 inductive RouteClause where
   | respOtherId | respOtherSession | respNotOwn | initNotOwn | inReqOtherSession | jsonModeNotStandalone
   | straggler | inReqNotOwn | detachedOtherSession | detachedNotStandalone | serverNotStandalone | unrecognised
+  | fanoutOtherSession | fanoutNotStandalone
 deriving DecidableEq, Repr
 
 inductive Clause10 where
@@ -152,6 +156,8 @@ def RouteClause.text : RouteClause → String
   | .detachedNotStandalone => "detached message routed to a request stream instead of the standalone/listen stream"
   | .serverNotStandalone => "server-initiated notification routed to a request stream"
   | .unrecognised => "unrecognised payload on the wire"
+  | .fanoutOtherSession => "a server-level notification issued inside a request handler of another session was delivered on the exchange of a request of this session (routed by the issuing session's request id) instead of this session's standalone/listen stream"
+  | .fanoutNotStandalone => "a server-level (fan-out) notification was routed to a request stream that is neither the standalone/listen stream nor the stream of the request whose handler issued it with its own context"
 
 def Clause10.text : Clause10 → String
   | .route false r => "C10: " ++ r.text
@@ -324,6 +330,13 @@ def routeCheck (m : MonS σ π) (pv : Prov σ) (sess : σ) (stream : Option Nat)
     if ps ≠ sess then some .detachedOtherSession
     else if standaloneOrListen m sess stream k then none else some .detachedNotStandalone
   | .server => if standaloneOrListen m sess stream k then none else some .serverNotStandalone
+  | .fanout ps _ post hctx =>
+    -- in every session the copy is "issued outside any request" of that session: standalone/listen stream; only the
+    -- issuing session's own copy may instead travel on the stream of the request whose context was passed
+    if standaloneOrListen m sess stream k then none
+    else if ps ≠ sess then some .fanoutOtherSession
+    else if hctx && decide (own m sess stream k post ≠ .no) then none
+    else some .fanoutNotStandalone
   | .other => some .unrecognised
 
 /-- a message that names its POST exchange is the first evidence of who created an unknown stream -/
